@@ -4,28 +4,32 @@
 import json, os, subprocess, sys, re, glob
 here = os.path.dirname(os.path.abspath(__file__))
 root = os.path.join(here, '..')
-extra = {'C06b': ['C10'], 'C01b': ['C03'], 'C03a': ['C01', 'C10'], 'C10a': ['C03'], 'C02a': ['C03']}
+extra = {'C06b': ['C10'], 'C01b': ['C03'], 'C03a': ['C01', 'C10'], 'C10a': ['C03'], 'C02a': ['C03'], 'C06c': ['C10'], 'C08d': ['C01'], 'C11d': ['C10']}
 only = sys.argv[1:]
 rows = []
-for d in sorted(glob.glob(os.path.join(root, 'seeded', '*', ''))):
+from concurrent.futures import ThreadPoolExecutor
+def one(d):
     sid = os.path.basename(os.path.dirname(d))
-    if only and sid not in only: 
-        m = json.load(open(os.path.join(d, 'meta.json')))
-        rows.append((sid, m)); continue
     mp = os.path.join(d, 'meta.json')
-    if not os.path.exists(mp): continue
+    if not os.path.exists(mp): return None
     m = json.load(open(mp))
+    if only and sid not in only:
+        return (sid, m)
     props = [m['property']] + extra.get(sid, [])
     fired = {}
     for p in props:
         out = subprocess.run([os.path.join(here, 'try_seed.sh'), os.path.join(d, 'patch.diff'), p], capture_output=True, text=True, env=dict(os.environ, HEADN='400')).stdout
         rules = sorted(set(re.findall(r'violated: rule=([A-Z0-9-]+)', out)))
+        if 'patch does not apply' in out or 'worktree failed' in out:
+            rules = ['ERROR-' + out.strip().splitlines()[-1][:60]]
         fired[p] = rules
     m['detected_by'] = fired
     m['detected'] = any(v for v in fired.values())
     json.dump(m, open(mp, 'w'), indent=1)
-    rows.append((sid, m))
     print(sid, fired, flush=True)
+    return (sid, m)
+with ThreadPoolExecutor(int(os.environ.get('JOBS', '4'))) as ex:
+    rows = [x for x in ex.map(one, sorted(glob.glob(os.path.join(root, 'seeded', '*', '')))) if x]
 with open(os.path.join(root, 'seeded', 'RESULTS.md'), 'w') as f:
     f.write('# Seeded changes: which checks catch which\n\nEach change was written by an independent sub-agent from the property text only, confirmed in a scratch worktree (tools/confirm_seed.sh: demonstration passes on the unchanged tree, fails with the change, existing tests of the touched packages still pass) and run against the checks with tools/run_seeds.py.\n\n| id | confirmed | detected | rules that fire | what it needs to manifest |\n|---|---|---|---|---|\n')
     for sid, m in rows:
